@@ -291,7 +291,8 @@ class PairSpec(Spec):
         cut = src1.index('def ok2():')
         src = src1[:cut] + body2 + src1[cut:]
         off2 = src[:src.index('def bad2():')].count('\n') - src2[:src2.index('def bad():')].count('\n')
-        exp = {'bad': (k1, line1), 'bad2': (k2, line2 + off2)}
+        # a kind whose failing line is not determined (close_stdout) has no expected line
+        exp = {'bad': (k1, line1), 'bad2': (k2, None if line2 is None else line2 + off2)}
         modname = harness.unique_modname('m09p', src)
         atoms = []
         with harness.scratch_dir('c09p') as d:
